@@ -73,6 +73,7 @@ def work(args):
                                      'norig': len(m.vars), 'tt': tt, 'model': m.describe()}})
 
     for g in gnames:
+        if g == 'g3' and fam == 'shapes' and tier == 'thorough' and idx % 4: continue     # non-convex-QC preset: every 4th shape model
         res = flatcheck.closure(srv, nl, '', g, levels=levels, max_dev=max_dev)
         for ci, (cfg, r0) in enumerate(res):
             dflt = cfg.get('default', 0)
@@ -92,7 +93,7 @@ def work(args):
                     st['oracle_disagreements'] += 1
             # differential: acceptance set through acc:* options over an all-accepting API, and
             # irrelevant types flipped to level 1 -- delivery must be identical (closure lemma)
-            if dflt == 0 and r.get('status') in ('ok', 'exc') and (tier != 'quick' or idx % 3 == 0):
+            if dflt == 0 and r.get('status') in ('ok', 'exc') and idx % (3 if tier == 'quick' else 2) == 0:
                 stored = r.get('stored', {})
                 rel = {info.get('tn') or k: info.get('opt', '').split(' ')[0] for k, info in stored.items()}
                 for t, o in G_OPT_NAMES.items(): rel.setdefault(t, o)
